@@ -356,6 +356,52 @@ def run(ctx):
         ctx.ob('C14.closure', 'row index of %s lookup at line %s' % ('mini_dfa' if nrows == 48 else 'big_dfa', ins.line),
                f.loc(ins), not bad, '%d sources; %s' % (n, bad or 'all are 0 or non-ACCEPT table values'), evals=max(n, 1))
 
+    skip_bound(ctx, prog)
+
+
+def skip_bound(ctx, prog):
+    """scan()'s skip prologue, tabulated: it never discards a whole 32-bit word more than the distance asked for
+    (discarded bits <= skip + 31, and nothing at all when skip is 0), otherwise headers beyond the parser's position
+    are lost to the scanner"""
+    from frag import Frag, Ptr, Unknown
+    f = prog.func('parse', 'scan')
+    lp = cfg.loops(f)
+    stop_blocks = set(lp)                      # the prologue ends at the first loop head
+    bad = []
+    unknown = []
+    n = 0
+    for live in list(range(0, 64, 1)):
+        for skip in list(range(0, 140)) + [255, 256, 1000, 4096]:
+            for avail in (0, 1, 2, 5, 1000):
+                n += 1
+                mem = {(('param', 'bs'), ('live',)): live,
+                       (('param', 'bs'), ('buff',)): (0xA5A5A5A5A5A5A5A5 >> (64 - live)) << (64 - live) if live else 0,
+                       (('param', 'bs'), ('data',)): Ptr(('inbuf',), (0,), 4),
+                       (('param', 'bs'), ('limit',)): Ptr(('inbuf',), (avail,), 4)}
+                fr = Frag(prog, f, regs={'skip': skip}, mem=mem)
+                try:
+                    r = fr.run(f.entry.name, stop=lambda ins, fr_: ins.block.name in stop_blocks)
+                except Unknown as e:
+                    unknown.append((live, skip, avail, str(e)))
+                    continue
+                if r[0] != 'stop':
+                    bad.append((live, skip, avail, 'prologue returns'))
+                    continue
+                live1 = fr.mem[(('param', 'bs'), ('live',))]
+                d1 = fr.mem[(('param', 'bs'), ('data',))]
+                words = d1.path[-1]
+                disc = (live - live1) + 32 * words
+                total = live + 32 * avail
+                if not (0 <= words <= avail and 0 <= live1 <= live):
+                    bad.append((live, skip, avail, 'position moved outside the buffer (words %d, live %d)' % (words, live1)))
+                elif disc > min(total, skip + 31) or (skip == 0 and disc != 0):
+                    bad.append((live, skip, avail, 'discards %d bits for skip=%d' % (disc, skip)))
+    if unknown:
+        broken('C14 scan() prologue could not be tabulated: %s' % (unknown[:2],))
+    ctx.ob('C14.scan.skip_bound', 'the skip prologue of scan() discards at most skip+31 bits (never a whole word beyond '
+           'the distance asked for) and stays inside the buffer', f.loc(), not bad,
+           '%d (live, skip, words available) cases' % n if not bad else 'e.g. live=%d skip=%d words=%d: %s' % bad[0], evals=n)
+
 
 def _flatten_phi(P, e, seen=None):
     seen = seen if seen is not None else set()
